@@ -760,6 +760,10 @@ def cases(tier, seed):
     for path in ("file", "load_definitions", "define", "cache-cold", "cache-warm", "cache-import-edit", "cache-same-text-two-directories"):
         out.append(Case("H10.c", path, M, "h_loading_paths", {"path": path}, opts=opts, validate=1 if path in ("file", "load_definitions") else 0, weight=6.0))
     out.append(Case("H10.c", "cache-across-processes", M, "h_cache_across_processes", {}, kind="conc"))
+    # a spelling that had been read as prefix + unit before it arrives as an alias or a name
+    # (load_definitions()/define() after first use mean what a file with the line in it means)
+    for pre in ("alias:prefixed", "alias:plural", "alias-load:prefixed", "prefixed"):
+        out.append(Case("H10.c", f"late-line-for-a-parsed-spelling:{pre}", "pvlib.harness.c13", "h_define_parsed_name", {"pre": pre}, opts={"hash_mode": "mixed", "max_paths": 300}, validate=1))
     for path in ("lines", "file", "define"):
         out.append(Case("H10.a", f"group-chain:{path}", M, "h_group_chain", {"path": path}, opts=opts, validate=1))
     for kind in ILL_FORMED:
